@@ -252,6 +252,10 @@ func Supervise(p *Prop, tier string, seed int64) int {
 				cmd.Stdout = ef
 				cmd.Stderr = ef
 				cmd.Env = append(os.Environ(), p.WorkerEnv...)
+				cmd.Env = append(cmd.Env, "VERIF_WORK="+work)
+				if p.Extra["race"] != nil {
+					cmd.Env = append(cmd.Env, "GORACE=halt_on_error=0 log_path="+filepath.Join(work, "race"))
+				}
 				if err := cmd.Start(); err != nil {
 					agg.Inconclusive("cannot start worker: " + err.Error())
 					ef.Close()
